@@ -180,17 +180,14 @@ theorem static_satisfy_fixed_point (vs : Array (Rat × Rat × Rat)) (cs : Array 
         decide (0 ≤ rawSlack s.st 0) &&
         (match s.satisfy with | (_, .ok p a) => p[0]! == 0 && p[1]! == 3 && !a | _ => false))
 
-/-- **static_merge_total**: from ANY state satisfying `WF` in which the model's loop fuel `m + n + 2` covers
-    the number of allocated blocks (always the case during `satisfy`), `mergeLeft` and `mergeRight` on a block
-    that owns a variable end by themselves — they do not touch either fuel flag — and re-establish `WF`:
-    every round of their `while` loops merges two different owning blocks. -/
-theorem static_merge_total (s : SSt) (b : Nat) (hw : WF s) (ho : Owns s.st b)
-    (hle : s.st.blocks.size ≤ s.st.cons.size + s.st.vars.size + 2) :
+/-- **static_merge_total**: from ANY state satisfying `WF` (during `satisfy` or inside `refine`), `mergeLeft`
+    and `mergeRight` on a block that owns a variable end by themselves — they do not touch either fuel flag —
+    and re-establish `WF`: every round of their `while` loops merges two different owning blocks, of which
+    there are at most `n`, and the model's loop fuel is `m + n + 2`. -/
+theorem static_merge_total (s : SSt) (b : Nat) (hw : WF s) (ho : Owns s.st b) :
     ((mergeLeft s b).hs.fuelOut = s.hs.fuelOut ∧ (mergeLeft s b).st.fuelOut = s.st.fuelOut ∧ WF (mergeLeft s b)) ∧
-    ((mergeRight s b).hs.fuelOut = s.hs.fuelOut ∧ (mergeRight s b).st.fuelOut = s.st.fuelOut ∧ WF (mergeRight s b)) := by
-  obtain ⟨a1, a2, _, a4⟩ := mergeLeft_total s b hw ho hle
-  obtain ⟨b1, b2, _, b4⟩ := mergeRight_total s b hw ho hle
-  exact ⟨⟨a1, a2, a4⟩, ⟨b1, b2, b4⟩⟩
+    ((mergeRight s b).hs.fuelOut = s.hs.fuelOut ∧ (mergeRight s b).st.fuelOut = s.st.fuelOut ∧ WF (mergeRight s b)) :=
+  ⟨mergeLeft_total' s b hw ho, mergeRight_total' s b hw ho⟩
 
 /-! ## the block invariant -/
 
